@@ -87,11 +87,15 @@ PROPS = {
         pkg="engine", level="exploration", eval_is_oracle=True,
         rule=CONC_RULE + " (histories up to 100 transactions, 50% op-atomic schedules); oracle M-ssi: reference SSI validation "
              "(snapshot = number of commits at Begin, conflict iff a later commit wrote a key read from the store), exact in op-atomic "
-             "schedules in both directions, real-time-disambiguated must-refuse/must-accept rule otherwise (ambiguous cases counted, accepted); "
+             "schedules in both directions; otherwise the real-time must-refuse/must-accept rule, and for commits that overlap the judged "
+             "transaction's Begin or Commit the engine's own read and commit timestamps (verif accessors; the commit timestamp is found "
+             "by reading the written key at successive timestamps as soon as both transactions have finished): a committed transaction "
+             "with a writer of a key it read at a timestamp between its read and commit timestamps is a missed conflict "
+             "(remaining ambiguous cases counted, accepted); "
              "evaluations = commit verdicts judged",
         quick=dict(runs=3000, budget_s=40), thorough=dict(runs=150000, budget_s=1200, det_runs=32),
-        must_probes=dict(quick=["conflict_aborts", "op_atomic_runs", "fine_grained_runs", "long_reader_spans"],
-                         thorough=["conflict_aborts", "op_atomic_runs", "fine_grained_runs", "long_reader_spans"]),
+        must_probes=dict(quick=["conflict_aborts", "op_atomic_runs", "fine_grained_runs", "long_reader_spans", "commit_ts_resolved"],
+                         thorough=["conflict_aborts", "op_atomic_runs", "fine_grained_runs", "long_reader_spans", "commit_ts_resolved"]),
     ),
     "C08": dict(
         pkg="engine", level="exploration",
